@@ -3,7 +3,8 @@
 usage: dev/seed_prompt.py <Cxx> <worktree> <context sentence> <examples of plausible bugs> [Debug]"""
 import json, sys
 pid, W, ctx, ex = sys.argv[1:5]
-debug = len(sys.argv) > 5
+debug = len(sys.argv) > 5 and sys.argv[5] == 'Debug'
+tried = sys.argv[6] if len(sys.argv) > 6 else ''
 P = {json.loads(l)['id']: json.loads(l) for l in open('/verif/properties.jsonl')}[pid]
 text = '%s: %s' % (P['title'], P['statement'])
 dbg = ''
@@ -20,7 +21,7 @@ The library is supposed to satisfy this property:
 
 "{text}"
 
-Your task: produce ONE realistic change (a plausible bug a maintainer could introduce: {ex}, two cooperating sites that each look fine alone, ...) to the library sources under {W}/include or {W}/src that BREAKS this property, while the library still compiles and its existing test suite still passes. Prefer a change that needs something specific to manifest - a particular size, alignment, order of operations, configuration or failure - rather than something any ordinary use would expose at once. Do not edit tests, and do not make the change depend on a new macro.
+Your task: produce ONE realistic change (a plausible bug a maintainer could introduce: {ex}, two cooperating sites that each look fine alone, ...) to the library sources under {W}/include or {W}/src that BREAKS this property, while the library still compiles and its existing test suite still passes. {tried}Prefer a change that needs something specific to manifest - a particular size, alignment, order of operations, configuration or failure - rather than something any ordinary use would expose at once. Do not edit tests, and do not make the change depend on a new macro.
 
 How to build and test (offline, no network; the extra flag makes cmake use the system doctest instead of downloading it):
   cmake -S {W} -B {W}/_b -G Ninja -DCMAKE_BUILD_TYPE=RelWithDebInfo -DFETCHCONTENT_TRY_FIND_PACKAGE_MODE=ALWAYS >/dev/null && cmake --build {W}/_b 2>&1 | tail -3 && ctest --test-dir {W}/_b --timeout 900 2>&1 | tail -3
@@ -32,4 +33,4 @@ Deliverables, all inside {W}/seed/ (create the directory):
   1. patch.diff  - `git -C {W} diff -- include src` of your change to the library sources only.
   2. demo.cpp    - a small self-contained program (exit status 0 = property holds, non-zero = violated, printing what it observed; it must terminate within a minute) that FAILS with your change and PASSES on the unchanged sources. Verify both yourself (switch with `git -C {W} apply -R seed/patch.diff` / `git -C {W} apply seed/patch.diff`; rebuild each time).
   3. notes.md    - which file/function you changed, why it breaks the property, what exactly is needed for it to manifest, the exact commands you ran and their observed results.
-Leave the worktree with your change applied (uncommitted) when you finish. In your final answer, summarise the change in 5-10 lines and state the verified outcomes (tests pass with change: yes/no; demo fails with change: yes/no; demo passes without: yes/no).''').format(W=W, ctx=ctx, text=text, ex=ex, dbg=dbg))
+Leave the worktree with your change applied (uncommitted) when you finish. In your final answer, summarise the change in 5-10 lines and state the verified outcomes (tests pass with change: yes/no; demo fails with change: yes/no; demo passes without: yes/no).''').format(W=W, ctx=ctx, text=text, ex=ex, dbg=dbg, tried=('Other people already tried the following changes; produce a DIFFERENT one, in a different function if possible: ' + tried + '. ') if tried else ''))
